@@ -2,7 +2,7 @@ SPECIFICATION Spec
 CONSTANTS Depth = 3
   Delays = {1, 32}
   Spacings = {1, 32, 33}
-  Scripts = {"none", "co32", "rmh"}
+  Scripts = {"none", "co32", "rmh", "err"}
   MaxSched = 2
   Sim = FALSE
 INVARIANT Emit
